@@ -1,6 +1,7 @@
 import TexSoupProofs.Reader.HypCheck
 import TexSoupProofs.Properties.TokHyp
 import TexSoupProofs.Properties.C19
+import TexSoupProofs.TokLemmas.SpacerWs
 /-!
 # C08 – Serialisation conserves the characters of any parseable input
 
@@ -79,6 +80,13 @@ theorem conservation_string (skip : List Str) (s : Str) (es : List Expr)
   have hflat := tokenize_lossless hs ht
   have hd := conservation skip s ts es ht h hy hnb
   exact ⟨ts, ht, hflat, hd, hflat ▸ hd.strict_sublist⟩
+
+/-- What may be removed is whitespace: every `MergedSpacer` token of a tokenizer output
+consists of characters with `str.isspace()` (re-checked against the generated category table:
+filing a non-blank character such as `~` under `Spacer` breaks this theorem). -/
+theorem dropped_tokens_are_whitespace {s : Str} {ts : List Tok} (h : tokenize s = some ts) :
+    ∀ t ∈ ts, t.cat = .MergedSpacer → ∀ c ∈ t.text, isSpaceCh c = true :=
+  tokens_spacer_whitespace h
 
 /-- The same invariant for every reader function, every fuel, every mode (Core A). -/
 theorem reader_invariant (skip0 : List Str) (f : Nat) : ConsAt skip0 f := consAt skip0 f
